@@ -8,7 +8,7 @@ on typed receivers, incl. the builtin set used for the deleted-document set).
 import ast
 
 from ..report import rule
-from .. import norm, cfg as cfgmod, guards
+from .. import pm, norm, cfg as cfgmod, guards
 from ..traces import Tracer, fmt
 from ..model import AnalysisError
 from .common import calls_of, find_calls, returns_of, is_abstract_body, bind_args, writer_classes
@@ -24,13 +24,15 @@ def c07_r2(ctx):
     prog = ctx.prog
     dd = prog.method("writing.SegmentWriter", "delete_document", inherited=False)
     ctx.saw(dd)
-    txt = norm.stmt_text(dd.node)
-    ctx.ob(dd, "segment, segdocnum = self._segment_and_docnum(docnum)" in txt and "segment.delete_document(segdocnum, delete=delete)" in txt,
+    A = pm.Alpha(dd)
+    sts = pm.stmts_of(dd.node)
+    ctx.ob(dd, A.has(sts, "segment, segdocnum = self._segment_and_docnum(docnum)") and A.has(sts, "segment.delete_document(segdocnum, delete=delete)"),
            "delete_document marks the segment-local number on the owning segment")
     sd = prog.method("writing.SegmentWriter", "_segment_and_docnum", inherited=False)
-    t2 = norm.stmt_text(sd.node)
-    ctx.ob(sd, "segment = self.segments[segmentnum]" in t2 and "return (segment, docnum - offset)" in t2 and "offset = self._doc_offsets[segmentnum]" in t2,
-           "the segment and the offset are taken at the same index", detail=t2[-160:])
+    rets = [norm.inline_defs(r.value, sd.node) for r in returns_of(sd) if r.value is not None]
+    B = pm.Alpha(sd)
+    ctx.ob(sd, len(rets) == 1 and B.eq(rets[0], "(self.segments[self._document_segment(docnum)], docnum - self._doc_offsets[self._document_segment(docnum)])"),
+           "the segment and the offset are taken at the same index", detail=str([norm.canon(r) for r in rets]))
     init = prog.method("writing.SegmentWriter", "__init__", inherited=False)
     segs = [norm.deep_canon(st.value, init.node) for st in ast.walk(init.node) if isinstance(st, ast.Assign) and norm.canon(st.targets[0]) == "self.segments"]
     ctx.ob(init, segs == ["ix._read_toc().segments"], "self.segments are the objects unpickled by this writer's own TOC read", detail=str(segs))
@@ -46,7 +48,9 @@ def c07_r2(ctx):
             raise AnalysisError("W3Segment.%s vanished" % m)
         ctx.ob(f, want in norm.stmt_text(f.node), "W3Segment.%s() reads the same deleted set" % m)
     tw = prog.method("index.TOC", "write", inherited=False)
-    ctx.ob(tw, "stream.write_pickle(self.segments)" in norm.stmt_text(tw.node), "the segment list (with its deleted sets) is pickled into the TOC")
+    T = pm.Alpha(tw)
+    ctx.ob(tw, T.has(pm.stmts_of(tw.node), "stream.write_pickle(self.segments)") and T.has(pm.stmts_of(tw.node), "stream = storage.create_file(tempfilename)"),
+           "the segment list (with its deleted sets) is pickled into the TOC")
     # cancel never publishes (= C02-R6, restated for deletions)
     tr = c02.tracer_for(prog)
     for c in c02.publishing_writers(prog):
@@ -56,7 +60,15 @@ def c07_r2(ctx):
         ctx.ob("%s.cancel [self=%s]" % (f.short.rsplit(".", 1)[0], c.name), not bad, "cancel() never writes a TOC (requested deletions are dropped with the writer)",
                detail=fmt(bad[0]) if bad else "", loc=f.loc)
     ex = prog.method("writing.IndexWriter", "__exit__", inherited=False)
-    ctx.ob(ex, "if exc_type: self.cancel() else: self.commit()" in " ".join(norm.stmt_text(ex.node).split()), "a failing with-block cancels")
+    fx = guards.Facts(ex)
+    sites = {}
+    for n in fx.g.nodes:
+        for frag in cfgmod.node_exprs(n):
+            for c in norm.calls_in(frag):
+                if norm.canon(c) in ("self.cancel()", "self.commit()"):
+                    sites.setdefault(norm.canon(c), []).append(sorted(fx.at(n) or []))
+    ctx.ob(ex, sites == {"self.cancel()": [[("T", ex.params[1])]], "self.commit()": [[("F", ex.params[1])]]} if len(ex.params) > 1 else False,
+           "a failing with-block cancels", detail=str(sites))
 
 
 @rule("C07", "R3", "K1", "update_document deletes the committed documents with the same unique values, then adds",
@@ -92,9 +104,10 @@ def c07_r3(ctx):
     loops = [n for n in ast.walk(fu.node) if isinstance(n, ast.For) and norm.canon(n.iter) == "uniques"]
     ok = False
     if len(loops) == 1:
+        U = pm.Alpha(fu)
         calls = [c for c in norm.calls_in(loops[0]) if norm.call_name(c) in ("document_number", "document_numbers")]
         ok = len(calls) == 1 and len(calls[0].keywords) == 1 and calls[0].keywords[0].arg is None and \
-            norm.canon(calls[0].keywords[0].value) == "{name: value}"
+            U.eq(loops[0].target, "(name, value)") and U.eq(calls[0].keywords[0].value, "{name: value}")
     ctx.ob(fu, ok, "each unique (field, value) pair is looked up on its own (OR semantics across unique fields)",
            detail="a single lookup with all pairs at once would require every unique value to match the same document" if not ok else "")
     bw = prog.method("writing.BufferedWriter", "update_document", inherited=False)
@@ -120,16 +133,28 @@ def c07_r4(ctx):
     ctx.saw(f)
     loops = [n for n in ast.walk(f.node) if isinstance(n, ast.For)]
     ok = False
+    A = pm.Alpha(f)
     if len(loops) == 1:
         lp = loops[0]
-        it = norm.canon(lp.iter)
-        body = [norm.stmt_text(s_) for s_ in lp.body]
-        ok = it == "s.docs_for_query(q, for_deletion=True)" and body == ["self.delete_document(%s)" % norm.canon(lp.target), "count += 1"]
-    rets = [norm.canon(r.value) for r in returns_of(f)]
-    ctx.ob(f, ok and rets == ["count"], "for docnum in docs_for_query(q, for_deletion=True): delete_document(docnum); count += 1; return count")
+        # the searcher iterated is the caller's or self.searcher()
+        svals = [norm.canon(v) if v is not None else "?" for v in norm.assigned_names(f.node).get(norm.canon(norm.receiver(lp.iter)) if isinstance(lp.iter, ast.Call) else "", [])]
+        ok = A.eq(lp.iter, "s.docs_for_query(q, for_deletion=True)") and A.eq(lp.target, "docnum") and len(lp.body) == 2 and \
+            A.eq(lp.body[0], "self.delete_document(docnum)") and A.eq(lp.body[1], "count += 1") and \
+            A.has(pm.stmts_of(f.node), "count = 0") and sorted(svals) == ["searcher", "self.searcher()"]
+    rets = [r.value for r in returns_of(f)]
+    ctx.ob(f, ok and len(rets) == 1 and A.eq(rets[0], "count"), "for docnum in docs_for_query(q, for_deletion=True): delete_document(docnum); count += 1; return count")
     dt = prog.method("writing.IndexWriter", "delete_by_term", inherited=False)
-    txt = norm.stmt_text(dt.node)
-    ctx.ob(dt, "Term(fieldname, text)" in txt and "return self.delete_by_query(q, searcher=searcher)" in txt, "delete_by_term = delete_by_query(Term(fieldname, text))")
+    rets = [norm.inline_defs(r.value, dt.node) for r in returns_of(dt) if r.value is not None]
+    ctx.ob(dt, len(rets) == 1 and norm.canon(rets[0]) == "self.delete_by_query(Term(fieldname, text), searcher=searcher)", "delete_by_term = delete_by_query(Term(fieldname, text))",
+           detail=str([norm.canon(r) for r in rets]))
     dq = prog.method("searching.Searcher", "docs_for_query", inherited=False)
-    t2 = norm.stmt_text(dq.node)
-    ctx.ob(dq, "method = q.deletion_docs" in t2 and "method = q.docs" in t2, "for_deletion selects the query's deletion_docs")
+    D = pm.Alpha(dq)
+    fq = guards.Facts(dq)
+    sel = {}
+    for n in fq.g.nodes:
+        a_ = n.ast
+        if n.kind == "stmt" and isinstance(a_, ast.Assign):
+            for v in ("q.deletion_docs", "q.docs"):
+                if D.eq(a_, "method = %s" % v):
+                    sel[v] = sorted(fq.at(n) or [])
+    ctx.ob(dq, sel == {"q.deletion_docs": [("T", "for_deletion")], "q.docs": [("F", "for_deletion")]}, "for_deletion selects the query's deletion_docs", detail=str(sel))
